@@ -29,3 +29,21 @@ package utils
 //@   ensures[C06:seek-ok] (r1 == nil) <==> (whence == 0 && 0 <= offset && offset < len(b.buf) && b.writeHead < len(b.buf))
 //@   ensures[C06:replayable] r1 == nil ==> brsPos(b) == offset && rdPos[b.r] < len(b.buf)
 //@   ensures[C06:seek-fail-noop] r1 != nil ==> b.readHead == old(b.readHead)
+
+// ---- exponential backoff (C08): target(n) = min(2^n ms, 3 s), constants from the property statement ----
+
+//@ pure pow2(n int) int = ite(n <= 0, 1, ite(n == 1, 2, ite(n == 2, 4, ite(n == 3, 8, ite(n == 4, 16, ite(n == 5, 32, ite(n == 6, 64,
+//@   | ite(n == 7, 128, ite(n == 8, 256, ite(n == 9, 512, ite(n == 10, 1024, ite(n == 11, 2048, 4096))))))))))))
+//@ pure backoffTarget(n int) int = ite(n >= 12, 3000000000, pow2(n) * 1000000)
+
+//@ func addJitter props(C08)
+//@   requires 0 <= duration && duration <= 3000000000 && jitterPercent == f64(0.1)
+//@   assigns nothing
+//@   ensures[C08:jitter-lower] real(r0) >= 0.9 * real(duration) - 2
+//@   ensures[C08:jitter-upper] real(r0) <= 1.1 * real(duration) + 2
+
+//@ func ExponentialBackoffDuration props(C08)
+//@   assigns nothing
+//@   ensures[C08:positive] r0 >= 1
+//@   ensures[C08:lower] real(r0) >= 0.9 * real(backoffTarget(retryCount)) - 2
+//@   ensures[C08:upper] real(r0) <= 1.1 * real(backoffTarget(retryCount)) + 2
